@@ -28,7 +28,7 @@ RULE = (
 ASSUMPTIONS = ["unix-domain sockets in one process keep the virtual clocks deterministic"]
 
 PHASES = ["fresh", "idle", "mid_head", "short", "long", "stuck", "h2_short", "h2_long", "ws",
-          "h2_two", "pipelined"]
+          "h2_two", "pipelined", "unread"]
 
 
 @st.composite
@@ -55,6 +55,8 @@ def programs_for(case: Dict[str, Any]) -> Dict[str, list]:
         "/shorter": [["recv_all"], ["sleep", 1.0 + g / 4], ok],
         "/long": [["recv_all"], ["sleep", 1.0 + 3 * g], ok],
         "/stuck": [["recv_all"], ["sleep", 1e7], ok],
+        # 4 MiB to a client that never reads: the application ends up waiting inside a write
+        "/huge": [["recv_all"], ["respond", 200, [], ["h" * 65536] * 64]],
         "/ws": [["recv"], ["send", {"type": "websocket.accept"}], ["ws_loop", {"echo": True}]],
     }
 
@@ -68,7 +70,7 @@ async def scenario(env: Any, case: Dict[str, Any]) -> Dict[str, Any]:
     await env.settle0()
     conns: List[Dict[str, Any]] = []
     for phase in case["conns"]:
-        c = await env.connect()
+        c = await env.connect(read=phase != "unread")
         info: Dict[str, Any] = {"phase": phase, "c": c}
         conns.append(info)
         if phase == "idle":
@@ -88,6 +90,8 @@ async def scenario(env: Any, case: Dict[str, Any]) -> Dict[str, Any]:
             c.send(req("/quick")[:10])
         elif phase in ("short", "long", "stuck"):
             c.send(req("/" + phase))
+        elif phase == "unread":
+            c.send(req("/huge"))
         elif phase == "pipelined":  # a second request already waits behind the one in progress
             c.send(req("/short") + req("/quick"))
         elif phase == "h2_two":
@@ -158,7 +162,7 @@ class _Adapter:
 def n_requests_before_trigger(case: Dict[str, Any]) -> int:
     return sum(2 if p == "h2_two" else 1 for p in case["conns"]
                if p in ("idle", "short", "long", "stuck", "h2_short", "h2_long", "ws", "h2_two",
-                        "pipelined"))
+                        "pipelined", "unread"))
 
 
 def judge(case: Dict[str, Any], res: Any) -> None:
@@ -207,6 +211,8 @@ def judge(case: Dict[str, Any], res: Any) -> None:
         ptag = dict(tag, phase=phase)
         if c.refused:
             raise Violation("refused_before_trigger", phase, **ptag)
+        if phase == "unread":
+            continue  # (this client does not look at its socket; only the bounds above apply)
         if phase in ("fresh", "idle", "mid_head"):
             if c.eof_at is None or abs(c.eof_at - t0) > eps:
                 raise Violation("idle_connection_not_closed_at_once", f"{phase} connection "
